@@ -37,8 +37,8 @@ def main(tier):
         import json
         sp_cfgs = [json.loads(c) for c in sp_cfgs]
         cp_cfgs = [json.loads(c) for c in cp_cfgs]
-        if len(sp_cfgs) != 48 or len(cp_cfgs) != 32:
-            raise tla.MachineryError(f"expected 48/32 configurations from the models, got {len(sp_cfgs)}/{len(cp_cfgs)}")
+        if len(sp_cfgs) != 64 or len(cp_cfgs) != 32:
+            raise tla.MachineryError(f"expected 64/32 configurations from the models, got {len(sp_cfgs)}/{len(cp_cfgs)}")
         sp_acts = sorted(r1["acts"], key=common.canon)
         cp_acts = sorted(r2["acts"], key=common.canon)
         L_sp, L_cp = (5, 4) if thorough else (4, 3)
@@ -55,6 +55,9 @@ def main(tier):
         res = tla.judge("J_SpecProperty", events, chunk=6000, jobs=common.jobs())
         pipeline.canaries(rep, "J_SpecProperty", events[::max(1, len(events) // 40)], canary.steps_family, env=None, want=16)
         rep.mark('judge')
+        from . import _spfrozen
+        _spfrozen.run(rep, tier)
+        rep.mark('frozen hosts')
         for gi, clause, detail in res["bad"]:
             e = events[gi]
             rep.violation(clause, {"family": e["kind"], "cfg": e["cfg"], "path": [s["a"] for s in e["steps"]],
@@ -72,6 +75,6 @@ def main(tier):
         rep.assumptions += ["user-written setter/deleter touch only a backing slot the getter does not read (DESIGN A8)",
                             "classproperty assignment/deletion go through instances (class-level assignment replaces the descriptor, as documented)"]
         return rep.finish(rule="all access paths of the given length over {read, assign int, assign str, delete, set underlying state} for each of the "
-                               "48 spec_property and 32 classproperty configurations of the TLC models, plus random longer paths; every path is distinct")
+                               "64 spec_property and 32 classproperty configurations of the TLC models, plus random longer paths; every path is distinct")
     finally:
         shutil.rmtree(tmp, ignore_errors=True)
